@@ -564,6 +564,31 @@ Definition eng_conc (inp impl : node) : verdict :=
   | _ => bad
   end.
 
+(* ---------------- engine: decoders (C09) ---------------- *)
+(* outcome classes: "ok" | "err" are clean; anything else (panic, crash, stack overflow, out of memory,
+   timeout) is a violation. Memory families: peak RSS <= 96 MiB (runtime baseline + twice the CAR section
+   cap) + 4 KiB per input byte. *)
+Definition clean (cls : str) : bool := str_eqb cls (lit "ok") || str_eqb cls (lit "err").
+Definition eng_decoders (inp impl : node) : verdict :=
+  match inp with
+  | List [Str kind; Str fam; Int sz; Int inlen] =>
+      match impl with
+      | List [Str cls; Int rss] =>
+          let bound := (100663296 + 4096 * inlen)%Z in
+          let ok := clean cls && (rss <=? bound)%Z in
+          {| model_obs := if ok then impl else List [Str (lit "err"); Int 0];
+             violated := if ok then [] else [lit "C09"] |}
+      | _ => bad
+      end
+  | List (Str kind :: _) =>
+      match impl with
+      | Str cls => {| model_obs := if clean cls then impl else Str (lit "err");
+                      violated := if clean cls then [] else [lit "C09"] |}
+      | _ => bad
+      end
+  | _ => bad
+  end.
+
 (* ---------------- engine: chain (C01-C05) ---------------- *)
 
 Definition dlg_of_node (n : node) : option dlg :=
@@ -667,7 +692,7 @@ Definition engines : list (str * (node -> node -> verdict)) :=
     (lit "selector", eng_selector);
     (lit "policy", eng_policy);
     (lit "chain", eng_chain);
-    (lit "selparse", eng_selparse); (lit "conc", eng_conc); (lit "meta", eng_meta); (lit "container", eng_container); (lit "cid", eng_cid); (lit "stream", eng_stream); (lit "token", eng_token); (lit "did", eng_did); (lit "policyipld", eng_policyipld) ].
+    (lit "selparse", eng_selparse); (lit "decoders", eng_decoders); (lit "conc", eng_conc); (lit "meta", eng_meta); (lit "container", eng_container); (lit "cid", eng_cid); (lit "stream", eng_stream); (lit "token", eng_token); (lit "did", eng_did); (lit "policyipld", eng_policyipld) ].
 
 Fixpoint find_engine (e : str) (l : list (str * (node -> node -> verdict))) : option (node -> node -> verdict) :=
   match l with
